@@ -370,7 +370,12 @@ fn replay(path: &str, rep: &mut Report) {
             }
         }
     } else {
-        let db: DbPasswordV1 = serde_json::from_str(inp["db"].as_str().expect("import or db")).unwrap();
+        let Some(dbs) = inp["db"].as_str() else {
+            // not a replay of this binary's streams (e.g. a c30fmt model disagreement)
+            rep.case(None);
+            return;
+        };
+        let db: DbPasswordV1 = serde_json::from_str(dbs).unwrap();
         Password::try_from(db).expect("TryFrom<DbPasswordV1>")
     };
     let Some(cth) = inp["ct"].as_str() else {
